@@ -48,7 +48,12 @@ pub struct Case {
     /// an http proxy is configured: plain-http hops are sent to it with the hop's URL as absolute-form target (https hops go direct)
     #[serde(default)]
     pub via_proxy: bool,
+    /// index into METHODS: which codes are followed does not depend on the request method
+    #[serde(default)]
+    pub method: u8,
 }
+
+pub const METHODS: &[&str] = &["GET", "GET", "POST", "PUT", "PATCH", "DELETE", "HEAD", "OPTIONS", "QUERY"];
 
 pub struct C09;
 
@@ -202,14 +207,14 @@ final outcome. non-trivial = >= 2 requests, or the bound hit exactly, or a relat
         let terminal = prop_oneof![Just(200u16), Just(204), Just(404), Just(500), Just(201)];
         prop_oneof![
             6 => (start.clone(), proptest::collection::vec(hop, 0..10), terminal.clone(), 0u32..9, prop::bool::weighted(0.85))
-                .prop_map(|(start, hops, terminal, max_redirections, follow)| Case { start, hops, terminal, max_redirections, follow, via_proxy: false }),
+                .prop_map(|(start, hops, terminal, max_redirections, follow)| Case { start, hops, terminal, max_redirections, follow, via_proxy: false, method: 0 }),
             // exactly at the bound / one beyond it
             2 => (start.clone(), 0u32..9, proptest::collection::vec(good_hop.clone(), 10), terminal.clone())
-                .prop_map(|(start, max, hops, terminal)| Case { start, hops: hops.into_iter().take(max as usize).collect(), terminal, max_redirections: max, follow: true, via_proxy: false }),
+                .prop_map(|(start, max, hops, terminal)| Case { start, hops: hops.into_iter().take(max as usize).collect(), terminal, max_redirections: max, follow: true, via_proxy: false, method: 0 }),
             2 => (start, 0u32..9, proptest::collection::vec(good_hop, 10), terminal)
-                .prop_map(|(start, max, hops, terminal)| Case { start, hops: hops.into_iter().take(max as usize + 1).collect(), terminal, max_redirections: max, follow: true, via_proxy: false }),
+                .prop_map(|(start, max, hops, terminal)| Case { start, hops: hops.into_iter().take(max as usize + 1).collect(), terminal, max_redirections: max, follow: true, via_proxy: false, method: 0 }),
         ]
-        .prop_flat_map(|c| prop::bool::weighted(0.25).prop_map(move |via_proxy| Case { via_proxy, ..c.clone() }))
+        .prop_flat_map(|c| (prop::bool::weighted(0.25), 0u8..METHODS.len() as u8).prop_map(move |(via_proxy, method)| Case { via_proxy, method, ..c.clone() }))
         .boxed()
     }
 
@@ -292,7 +297,9 @@ final outcome. non-trivial = >= 2 requests, or the bound hit exactly, or a relat
             n.push((dial.clone(), log));
             Ok(Box::new(t) as Box<dyn Transport>)
         });
-        let res = attohttpc::get(start.render())
+        let method = METHODS[case.method as usize % METHODS.len()];
+        ctx.label_if(!matches!(method, "GET" | "HEAD"), "method-other-than-get-or-head");
+        let res = attohttpc::RequestBuilder::new(http::Method::from_bytes(method.as_bytes()).unwrap(), start.render())
             .proxy_settings(if case.via_proxy { attohttpc::ProxySettings::builder().http_proxy(url::Url::parse("http://proxy.test:3128").unwrap()).build() } else { no_proxy() })
             .max_redirections(case.max_redirections)
             .follow_redirects(case.follow)
